@@ -240,6 +240,28 @@ def dom_lhs_change(ctx, prog):
     else:
         ctx.fail(R, "invalidate-arg", "invalidate_nodes_created_on_rhs does not receive the list taken before the "
                  "closure ran", fn=F, span=i.span)
+    # ... and nothing else touches the taken list in between (e.g. handing part of it back to the bind)
+    if takes:
+        other_users = []
+        for t in F.calls():
+            if F.is_cleanup(t.bb) or t is i or q.is_tracing(t) or t.bb == takes[0].bb:
+                continue
+            if q.callee_is(t, "core::mem::drop", "drop_in_place", "Deref::deref", "DerefMut::deref_mut", "fmt"):
+                continue
+            for k in range(len(t.args)):
+                pl = t.arg_place(k)
+                if pl is None:
+                    continue
+                if any(o.site is takes[0].site for o in origins(F, pl, du) if o.site is not None):
+                    other_users.append(t)
+                    break
+        ctx.site(R, F, "other users of the taken list: %s" % [q.short_path(t.callee) for t in other_users])
+        if other_users:
+            ctx.fail(R, "taken-list-untouched", "the list of nodes taken from the previous run is also passed to %s: nodes "
+                     "of the previous run can escape invalidation (e.g. be handed back to the bind)"
+                     % ", ".join(sorted({q.short_path(t.callee) for t in other_users})), fn=F, span=other_users[0].span)
+        else:
+            ctx.ok(R, "taken-list-untouched")
     ctrl = c.controlling_switches(i.bb)
     arm_sw = set()
     only_some = False
